@@ -151,6 +151,8 @@ type Entry struct {
 	New func(vs []ref.V) any
 	// Trees extracts the normal-form value trees of a []T.
 	Trees func(rows any) []ref.V
+	// LaxTrees is Trees under the Go-level equivalence nil ≡ empty slice/map.
+	LaxTrees func(rows any) []ref.V
 	// Len / Slice on []T.
 	Len   func(rows any) int
 	Slice func(rows any, i, j int) any
@@ -220,6 +222,14 @@ func register[T any](name string) {
 		out := make([]ref.V, len(rs))
 		for i := range rs {
 			out[i] = Extract(reflect.ValueOf(&rs[i]).Elem(), &e.Node)
+		}
+		return out
+	}
+	e.LaxTrees = func(rows any) []ref.V {
+		rs := rows.([]T)
+		out := make([]ref.V, len(rs))
+		for i := range rs {
+			out[i] = ExtractLax(reflect.ValueOf(&rs[i]).Elem(), &e.Node)
 		}
 		return out
 	}
